@@ -9,6 +9,10 @@
 #include <string>
 #include <vector>
 
+namespace vr {
+void progress();
+}
+
 namespace ve {
 
 struct Chooser {
@@ -46,6 +50,7 @@ inline size_t exploreAll(const std::function<void(Chooser&)>& run, int maxDev = 
     size_t plen = ch.prefix.size();
     run(ch);
     execs++;
+    vr::progress();
     if (ch.taken.size() < plen) {
       fprintf(stderr, "explore: execution shorter than its prefix (nondeterminism)\n");
       abort();
